@@ -22,8 +22,8 @@ LEVEL = "exploration"
 WORLD = {"sched": True}
 RULE = (
   "for each scene, every launch index of a 2-step run x every schedule of that launch's family (quick: descending, rotate n/3, "
-  "hoist last->first, hoist first->last; thorough: all n! for n<=5, else descending + rotations + all single hoists (n<=48) or "
-  "strided rotations + all adjacent swaps + every hoist-to-front + strided hoist-from-front); a scenario is a chunk of launch "
+  "hoist last->first, hoist first->last; thorough: all n! for n<=5, else descending + rotations + all single hoists (n<=24) or "
+  "<=48 strided rotations + <=256 strided adjacent swaps + <=128 strided hoists-to-front + <=48 strided hoists-from-front); a scenario is a chunk of launch "
   "indices; non-trivial = the chunk contains a launch with >=2 tasks; distinct = (scene, chunk)"
 )
 BOUNDS = {
@@ -36,7 +36,8 @@ ASSUMPTIONS = [
   "reorder tolerance 2e-3*(1+max|ref|) (class solver: after 2 steps every float is downstream of the iterative solver, whose float32 stopping point moves with summation order; measured max 3e-4 on the unchanged tree); integer outputs exact; contacts/rows compared as multisets",
   "each worker proves with a canary kernel that the installed permutation is the one executed",
 ]
-BUDGET = {"quick": 500, "thorough": 3400}
+BUDGET = {"quick": 500, "thorough": 7200}
+SCENARIO_TIMEOUT = 3000
 CHUNK = 8
 MAXLAUNCH = {"dense": 400, "sparse": 400, "ell": 400, "cg": 720}
 # CG is only run on the small well-conditioned scene: on the rich scene float32 CG stops 0.2-1% away from the optimum
@@ -56,8 +57,9 @@ def scenarios(tier, seed):
   for sc in SCENES:
     out.append(dict(scene=sc, kind="global", tier=tier, variant=seed % 4))
   for sc in SCENES:
-    for lo in range(0, MAXLAUNCH[sc], CHUNK):
-      out.append(dict(scene=sc, kind="single", lo=lo, hi=lo + CHUNK, tier=tier, variant=seed % 4))
+    ch = CHUNK if tier == "quick" else 2
+    for lo in range(0, MAXLAUNCH[sc], ch):
+      out.append(dict(scene=sc, kind="single", lo=lo, hi=lo + ch, tier=tier, variant=seed % 4))
   if tier == "thorough":
     for sc in SCENES:
       for lo in range(0, MAXLAUNCH[sc], CHUNK):
@@ -95,21 +97,24 @@ def family(n, tier):
     for k, p in enumerate(itertools.permutations(range(n))):
       add(f"perm{k}", p)
     return list(fam.items())
-  if n <= 48:
+  if n <= 24:
     for r in range(1, n):
       add(f"rot{r}", [(t + r) % n for t in range(n)])
     for i in range(n):
       for j in range(i + 1, n):
         add(f"hoist{j}>{i}", hoist(n, j, i))
     return list(fam.items())
+  # n > 24: strided members so that a launch costs at most ~480 runs (each run = fresh Data + 2 steps)
   s = math.ceil(n / 48)
   for r in range(1, n, s):
     add(f"rot{r}", [(t + r) % n for t in range(n)])
-  for i in range(n - 1):
+  s2 = math.ceil((n - 1) / 256)
+  for i in range(0, n - 1, s2):
     p = list(range(n))
     p[i], p[i + 1] = p[i + 1], p[i]
     add(f"swap{i}", p)
-  for j in range(1, n):
+  s3 = math.ceil(n / 128)
+  for j in range(1, n, s3):
     add(f"hoist{j}>0", hoist(n, j, 0))
   for j in range(1, n, s):
     add(f"hoist0>{j}", hoist(n, 0, j))
